@@ -11,6 +11,7 @@
 #include "cmd_det.h"
 #include "cmd_util.h"
 #include "cmd_listing.h"
+#include "cmd_macro.h"
 
 static void register_all()
 {
@@ -25,4 +26,5 @@ static void register_all()
   register_det();
   register_util();
   register_listing();
+  register_macro();
 }
